@@ -455,13 +455,27 @@ where
         };
         if let Some(preprocessor_key) = &preprocessor_key {
             if cache_control == CacheControl::Default {
+                // A preprocessor cache entry that cannot be looked up, read or decoded (truncated,
+                // corrupt, unknown format) is treated like a missing one: run the preprocessor.
+                // It must never fail the whole request.
                 if let Some(mut seekable) = storage
                     .get_preprocessor_cache_entry(preprocessor_key)
-                    .await?
+                    .await
+                    .unwrap_or_else(|e| {
+                        debug!("Failed to look up preprocessor cache entry: {}", e);
+                        None
+                    })
                 {
                     let mut buf = vec![];
-                    seekable.read_to_end(&mut buf)?;
-                    let mut preprocessor_cache_entry = PreprocessorCacheEntry::read(&buf)?;
+                    if let Err(e) = seekable.read_to_end(&mut buf) {
+                        debug!("Failed to read preprocessor cache entry: {}", e);
+                        buf.clear();
+                    }
+                    let mut preprocessor_cache_entry = PreprocessorCacheEntry::read(&buf)
+                        .unwrap_or_else(|e| {
+                            debug!("Ignoring undecodable preprocessor cache entry: {}", e);
+                            PreprocessorCacheEntry::new()
+                        });
                     let mut updated = false;
                     let hit = preprocessor_cache_entry
                         .lookup_result_digest(preprocessor_cache_mode_config, &mut updated);
